@@ -587,6 +587,7 @@ class TaskDescription(FastTypedDict):
         INFO_PATTERN    : str         ,
         CODE            : str         ,
         FUNCTION        : str         ,
+        METHOD          : str         ,
         ARGS            : [None]      ,
         KWARGS          : {str: None} ,
         COMMAND         : str         ,
@@ -655,6 +656,7 @@ class TaskDescription(FastTypedDict):
         INFO_PATTERN    : ''          ,
         CODE            : ''          ,
         FUNCTION        : ''          ,
+        METHOD          : ''          ,
         ARGS            : list()      ,
         KWARGS          : dict()      ,
         COMMAND         : ''          ,
@@ -735,8 +737,10 @@ class TaskDescription(FastTypedDict):
                 raise ValueError("%s Task mode needs 'executable'" % umode)
 
         elif self.mode in [TASK_FUNC, TASK_METH]:
-            if not self.get('function'):
+            if self.mode == TASK_FUNC and not self.get('function'):
                 raise ValueError("TASK_FUNC Task mode needs 'function'")
+            if self.mode == TASK_METH and not self.get('method'):
+                raise ValueError("TASK_METH Task mode needs 'method'")
             if self.get('named_env'):
                 raise ValueError("TASK_FUNC and TASK_METH Task mode does not "
                                  "support 'named_env'")
